@@ -219,3 +219,16 @@ PROPS["C01"] = {
         "UDP socket reads are not part of this harness (datagram batches are written to the parser input channel, as the property's observation point says)",
     ],
 }
+
+PROPS["C11"] = {
+    "pkg": "c11", "level": "exploration",
+    "jobs": {
+        "quick": [{"name": "cloud", "run": "^TestCloudStageHistories$", "checks": 3200, "shards": 16, "steps": 25}],
+        "thorough": [{"name": "cloud", "run": "^TestCloudStageHistories$", "checks": 320000, "shards": 16, "steps": 40, "timeout": 1700}],
+    },
+    "assumptions": [
+        "the cache contract: an answer on InfoSource follows a request on IpSink (completions are only generated for sources the stage actually requested)",
+        "deliveries after a completion happen on goroutines the stage spawns: the harness waits for the expected number of deliveries (progress wait; only 'never delivered within 30 s' is reported)",
+        "stats emission is fire-and-forget in the stage: the harness re-triggers it until it lands (progress only)",
+    ],
+}
